@@ -13,6 +13,17 @@ PROOF_NOTE = ("Trusted: Lean 4.33 kernel + axioms propext/Classical.choice/Quot.
               "tables/constants (Strophe/Gen). ")
 
 CLAIMED = {
+    "C07": dict(
+        engine="sasl", design="5.7",
+        technique="Lean 4 theorems: client SCRAM proof accepted by an RFC 5802 server-side verifier written from the RFC, message grammar, DIGEST-MD5 = RFC 2831, PLAIN = RFC 4616, XEP-0114 handshake, parser robustness; differential correspondence + independent Python RFC 5802/2831 server",
+        text=("scram_proof_verifies (every mechanism, password, non-empty salt of ANY length, 1 <= i < 2^32, server nonce, channel "
+              "binding: the client proof passes serverVerify), hi_eq_spec, scram_messages_wellformed (gs2 header, c= field, nonce "
+              "echo, saslname escaping), scram_exchange(_plus), digest_md5_eq_rfc2831 (quoted-pairs included), plain_eq_rfc4616, "
+              "handshake_eq_xep0114, legacy_fields, scram_parse_no_crash / digest_parse_no_crash (no NULL dereference or abort for "
+              "any server bytes). Built on the C17 hash models (proved equal to the standards). Tied to sasl.c/scram.c/auth.c every "
+              "run; every response is also verified by an independent Python server (hashlib.pbkdf2_hmac, hmac, md5). Eight defects "
+              "found and repaired."),
+        note=PROOF_NOTE + "Nonce freshness is checked empirically on the real rand.c (the DRBG is not modelled); Normalize(password) is the identity as in the C code; built without NDEBUG."),
     "C10": dict(
         engine="xml", design="5.10",
         technique="Lean 4 refinement + invariant theorems over arbitrary expat callback traces with expat as a parameter under the named hypothesis H-expat; recorded-parameter replay against the real parser; ElementTree oracle",
